@@ -310,7 +310,7 @@ def _model_str(model):
     return {k: str(v) for k, v in model.items()}
 
 
-def _random_point(rng, hyps, symbols):
+def _random_point(rng, hyps, symbols, positive_only=False):
     """a model of hyps with as many symbols as possible pinned to random dyadic values"""
     s = z3.Solver()
     s.set("timeout", 3000)
@@ -323,7 +323,7 @@ def _random_point(rng, hyps, symbols):
     for n in names:
         c = symbols[n]
         for _ in range(3):
-            v = Fraction(rng.randint(-192, 192), 64) if rng.random() < 0.5 else Fraction(rng.randint(1, 256), 64)
+            v = Fraction(rng.randint(-192, 192), 64) if (rng.random() < 0.5 and not positive_only) else Fraction(rng.randint(16, 256), 64)
             s.push()
             s.add(c == z3.RealVal(f"{v.numerator}/{v.denominator}"))
             if s.check() == z3.sat:
@@ -462,6 +462,10 @@ def run_item(harness, item, *, tier="quick", max_paths=256, timeout_ms=20000, ce
                 try:
                     cenv = conc_run(harness, model, tier=tier, seed=seed, params=params)
                     hit = [o for o in cenv.obligations if o.label == pr["replay_label"]]
+                    if not hit and pr["label"] == "<unexpected-exception>":
+                        # symbolically the code raised (e.g. a foreign library refused symbolic tensors); on concrete
+                        # numbers the same input may show up as a wrong value instead: any failing obligation reproduces it
+                        hit = [o for o in cenv.obligations if o.value_ok is False][:1]
                     if hit and hit[0].value_ok is False:
                         rec["reproduced"] = True
                         rec["model"] = _model_str(model)
@@ -472,6 +476,13 @@ def run_item(harness, item, *, tier="quick", max_paths=256, timeout_ms=20000, ce
                     rec["replay_note"] = f"replay invalid: {e}"
                 except Exception as e:  # real code raised on the concrete point
                     rec["replay_note"] = f"concrete run raised {type(e).__name__}: {e}"
+                if pr["kind"] == "fail":
+                    # structural failure: try further generic points (all-positive ones avoid NaN log-densities that
+                    # would mask a difference)
+                    gp = _random_point(rng, pr["hyps"], symbols, positive_only=True)
+                    if gp is not None:
+                        model = gp
+                        continue
                 # ask for another model of the same obligation
                 blocked.append(z3.Or([c != zexpr(SV(model[n])) for n, c in symbols.items() if n in model][:40]))
                 v2 = decide.prove(pr["goal"], hyps=pr["hyps"] + blocked, timeout_ms=timeout_ms,
